@@ -8,6 +8,12 @@
 import Spydr.Common.Proto
 import Spydr.IO.ModelRead
 import Spydr.IO.SpecRead
+import Spydr.IO.ModelTopo
+import Spydr.IO.SpecTopo
+import Spydr.IO.ModelEdifify
+import Spydr.IO.SpecEdifify
+import Spydr.IO.ModelResolve
+import Spydr.IO.SpecResolve
 open Lean Spydr.Proto Spydr.IO
 
 namespace DrvIO
@@ -73,11 +79,150 @@ def handleClean (j : Json) : Except String Json := do
   let z := ops.zip tr
   pure (Json.mkObj [("clean", Json.bool (trajectoryClean p0 z)), ("first_bad", ofOptNat (firstBad p0 z 0))])
 
+/-! ## C16 -/
+
+/-- `[[id,[dep,...]],...]` -> lookup function (absent id: no dependencies) -/
+def decodeDeps (a : Array Json) : Except String (Nat → List Nat) := do
+  let tbl ← a.toList.mapM (fun e => do
+    let p ← e.getArr?
+    if p.size != 2 then throw "deps entry must be [id,[..]]"
+    let k ← p[0]!.getNat?
+    let v ← natList (← p[1]!.getArr?)
+    pure (k, v))
+  pure (fun x => ((tbl.find? (fun kv => kv.1 == x)).map (·.2)).getD [])
+
+def handleTopo (j : Json) : Except String Json := do
+  let input ← natList (← getArr j "input")
+  let deps ← decodeDeps (← getArr j "deps")
+  let fuel := (← getOptNat j "fuel").getD (Topo.fuelFor deps input)
+  let r := Topo.toposort deps fuel input
+  pure (Json.mkObj [("out", ofNatList r.1), ("finished", Json.bool r.2), ("fuel", Json.num (JsonNumber.fromNat fuel))])
+
+def handleTopoOrder (j : Json) : Except String Json := do
+  let input ← natList (← getArr j "input")
+  let deps ← decodeDeps (← getArr j "deps")
+  let order ← natList (← getArr j "order")
+  pure (Json.mkObj [("ok", Json.bool (Topo.topoOrderB deps input order)),
+                    ("perm", Json.bool (order.isPerm input)),
+                    ("depOrdered", Json.bool (Topo.depOrderedB deps order))])
+
+def decodeData (j : Json) : Except String Data := do
+  (← j.getArr?).toList.mapM (fun e => do
+    let p ← e.getArr?
+    if p.size != 2 then throw "data entry must be [k,v]"
+    pure (← p[0]!.getStr?, ← p[1]!.getStr?))
+
+def decodeElem (j : Json) : Except String Elem := do
+  pure ⟨← getStr j "name", ← decodeData (← j.getObjVal? "data"), ← getStr j "extra"⟩
+
+def decodeElems (j : Json) (k : String) : Except String (List Elem) := do
+  (← getArr j k).toList.mapM decodeElem
+
+def decodeDef (j : Json) : Except String EDef := do
+  pure ⟨← getNat j "id", ← decodeElem (← j.getObjVal? "self"), ← decodeElems j "ports",
+        ← decodeElems j "cables", ← decodeElems j "insts"⟩
+
+def decodeLib (j : Json) : Except String ELib := do
+  pure ⟨← getNat j "id", ← decodeElem (← j.getObjVal? "self"), ← (← getArr j "defs").toList.mapM decodeDef⟩
+
+def decodeNet (j : Json) : Except String ENet := do
+  let name := match j.getObjVal? "name" with
+    | .ok (.str s) => some s
+    | _ => none
+  pure ⟨name, ← decodeData (← j.getObjVal? "data"), ← decodeElem (← j.getObjVal? "top"),
+        ← (← getArr j "libs").toList.mapM decodeLib⟩
+
+def encData (d : Data) : Json := Json.arr (d.map (fun kv => Json.arr #[Json.str kv.1, Json.str kv.2])).toArray
+def encElem (e : Elem) : Json := Json.mkObj [("name", Json.str e.name), ("data", encData e.data), ("extra", Json.str e.extra)]
+def encElems (l : List Elem) : Json := Json.arr (l.map encElem).toArray
+def encDef (d : EDef) : Json :=
+  Json.mkObj [("id", Json.num (JsonNumber.fromNat d.id)), ("self", encElem d.self), ("ports", encElems d.ports),
+              ("cables", encElems d.cables), ("insts", encElems d.insts)]
+def encLib (l : ELib) : Json :=
+  Json.mkObj [("id", Json.num (JsonNumber.fromNat l.id)), ("self", encElem l.self), ("defs", Json.arr (l.defs.map encDef).toArray)]
+def encNet (n : ENet) : Json :=
+  Json.mkObj [("name", match n.name with | some s => Json.str s | none => Json.null), ("data", encData n.data),
+              ("top", encElem n.top), ("libs", Json.arr (n.libs.map encLib).toArray)]
+
+/-- P for EDIF on the implementation: `DocEq after before` (executable form, proved sound) -/
+def handleDocEq (j : Json) : Except String Json := do
+  let a ← decodeNet (← j.getObjVal? "a")
+  let b ← decodeNet (← j.getObjVal? "b")
+  pure (Json.mkObj [("ok", Json.bool (docEqB a b)), ("equal", Json.bool (a == b))])
+
+/-- the identifier oracle: the harness labels every element in the first field of `extra`
+    (`label|...`) and sends the identifiers the implementation chose as `[[label, ident],...]` -/
+def labelOf (extra : String) : String := (extra.splitOn "|").headD ""
+
+def handleEdifify (j : Json) : Except String Json := do
+  let n ← decodeNet (← j.getObjVal? "net")
+  let depL ← decodeDeps (← getArr j "depL")
+  let dd ← (← getArr j "depD").toList.mapM (fun e => do
+    let p ← e.getArr?
+    if p.size != 2 then throw "depD entry must be [libid, deps]"
+    pure (← p[0]!.getNat?, ← decodeDeps (← p[1]!.getArr?)))
+  let depD : Nat → Nat → List Nat := fun l => ((dd.find? (fun kv => kv.1 == l)).map (·.2)).getD (fun _ => [])
+  let ids ← (← getArr j "ids").toList.mapM (fun e => do
+    let p ← e.getArr?
+    if p.size != 2 then throw "ids entry must be [label, ident]"
+    pure (← p[0]!.getStr?, ← p[1]!.getStr?))
+  let mkId : MkId := fun e _ => ((ids.find? (fun kv => kv.1 == labelOf e.extra)).map (·.2)).getD "?"
+  let szD := (n.libs.map (fun l => Topo.fuelFor (depD l.id) (l.defs.map (·.id)))).foldl max 0
+  let fuel := (← getOptNat j "fuel").getD (max (Topo.fuelFor depL (n.libs.map (·.id))) szD)
+  let r := edifify depL depD mkId fuel n
+  -- second pre-pass on the result (repeatability in the model)
+  let r2 := edifify depL depD mkId fuel r.1
+  pure (Json.mkObj [("net", encNet r.1), ("finished", Json.bool r.2), ("second_identity", Json.bool (r2.1 == r.1 && r2.2)),
+                    ("docEq", Json.bool (docEqB r.1 n))])
+
+/-! ## C15: EDIF reference resolution -/
+
+def optStr (j : Json) (k : String) : Option String :=
+  match j.getObjVal? k with
+  | .ok (.str s) => some s
+  | _ => none
+
+def decodeEv (j : Json) : Except String Resolve.Ev := do
+  let k ← getStr j "e"
+  match k with
+  | "lib" => do pure (.lib (← getStr j "id"))
+  | "endLib" => pure .endLib
+  | "cell" => do
+      let ps ← (← getArr j "ports").toList.mapM (fun e => do
+        let p ← e.getArr?
+        if p.size != 2 then throw "port must be [ident,width]"
+        pure (⟨← p[0]!.getStr?, ← p[1]!.getNat?⟩ : Resolve.PortDecl))
+      pure (.cell (← getStr j "id") (← getStr j "view") ps)
+  | "endCell" => pure .endCell
+  | "inst" => do pure (.inst (← getStr j "id") (← getStr j "view") (optStr j "cell") (optStr j "lib"))
+  | "portRef" => do pure (.portRef (← getStr j "port") (← getOptNat j "member") (optStr j "inst"))
+  | "design" => do pure (.design (← getStr j "cell") (← getStr j "lib"))
+  | s => .error s!"bad event {s}"
+
+def encRRef : Resolve.RRef → Json
+  | .cell d => Json.mkObj [("k", Json.str "cell"), ("at", Json.num (JsonNumber.fromNat d))]
+  | .pin c p b ia => Json.mkObj [("k", Json.str "pin"), ("cell", Json.num (JsonNumber.fromNat c)),
+      ("port", Json.num (JsonNumber.fromNat p)), ("bit", Json.num (JsonNumber.fromNat b)), ("inst", ofOptNat ia)]
+  | .top d => Json.mkObj [("k", Json.str "top"), ("at", Json.num (JsonNumber.fromNat d))]
+
+def handleResolve (j : Json) : Except String Json := do
+  let evs ← (← getArr j "events").toList.mapM decodeEv
+  let und := Resolve.hasUndeclared evs
+  match Resolve.resolve evs with
+  | .error e => pure (Json.mkObj [("ok", Json.bool false), ("err", Json.str (reprStr e)), ("undeclared", Json.bool und)])
+  | .ok rs => pure (Json.mkObj [("ok", Json.bool true), ("undeclared", Json.bool und),
+      ("refs", Json.arr (rs.map (fun kr => Json.arr #[Json.num (JsonNumber.fromNat kr.1), encRRef kr.2])).toArray)])
+
 def handle (st : Unit) (j : Json) : Except String (Unit × Json) := do
   let fn ← getStr j "fn"
   match fn with
   | "traj" => do pure (st, ← handleTraj j)
   | "clean" => do pure (st, ← handleClean j)
+  | "resolve" => do pure (st, ← handleResolve j)
+  | "topo" => do pure (st, ← handleTopo j)
+  | "topoOrder" => do pure (st, ← handleTopoOrder j)
+  | "docEq" => do pure (st, ← handleDocEq j)
+  | "edifify" => do pure (st, ← handleEdifify j)
   | "ping" => pure (st, Json.mkObj [("pong", Json.bool true)])
   | s => .error s!"unknown fn {s}"
 
